@@ -38,7 +38,7 @@ for m in muts:
         out = {}
         for prop in m["props"]:
             t0 = time.time()
-            env = dict(os.environ, VERIF_REPO=repo, VERIF_SEED=os.environ.get("VERIF_SEED", "1"))
+            env = dict(os.environ, VERIF_REPO=repo, VERIF_SEED=os.environ.get("VERIF_SEED", "1"), VERIF_REPLAY_DIR=os.path.join(work, "replays"))
             r = subprocess.run([os.path.join(V, "check"), prop, "--tier", tier], env=env, capture_output=True, text=True)
             viol = [l for l in r.stdout.splitlines() if l.startswith("VIOLATION")]
             out[prop] = {"exit": r.returncode, "killed": r.returncode == 1 and bool(viol), "wall_s": round(time.time() - t0, 1),
@@ -46,7 +46,6 @@ for m in muts:
             print("MUTANT %-28s %s %s exit=%d %.0fs baseline=%s %s" % (m["id"], prop, "KILLED" if out[prop]["killed"] else "SURVIVED", r.returncode, time.time() - t0, base, out[prop]["first_key"][:120]), flush=True)
         results[m["id"] + "@" + tier] = {"desc": m["desc"], "baseline": base, "checks": out}
         json.dump(results, open(resp, "w"), indent=1)
-        # replay files written while testing a mutant are not findings on the real tree
-        subprocess.run("cd %s && git status --porcelain replays | awk '{print $2}' | xargs -r rm -f" % V, shell=True)
+        # replay files of mutant runs go to the scratch directory (VERIF_REPLAY_DIR), never to /verif/replays
     finally:
         shutil.rmtree(work, ignore_errors=True)
